@@ -65,15 +65,16 @@ def main():
     # ---------------- (a) bit-fields ----------------
     NA = 40 if run.quick() else 400
     structs = [gen_bf_struct(rng, k) for k in range(NA)]
+    packed = [rng.random() < 0.3 for _ in structs]      # packed: chibicc keeps the no-straddle rule (C08 open finding about gcc's layout), so layout and access must still agree
     # layout from the C08 model
-    lq = '\n'.join('S 0 1 ' + ' '.join('%d %d %d 1' % (m['size'], m['size'], m['bf'] if m['bf'] is not None else -1) for m in ms) for ms in structs) + '\n'
+    lq = '\n'.join('S %d 1 ' % packed[k] + ' '.join('%d %d %d 1' % (m['size'], m['size'], m['bf'] if m['bf'] is not None else -1) for m in ms) for k, ms in enumerate(structs)) + '\n'
     rc, lo, le = sh([MODELRUN, 'layout'], input=lq, timeout=120)
     layouts = [l.split() for l in lo.strip().split('\n')]
     prog = ['int printf(const char *, ...); void *memcpy(void *, const void *, unsigned long);',
             'static void dump(int id, void *p, int n, long v) { printf("%d ", id); for (int i = 0; i < n; i++) printf("%02x", ((unsigned char *)p)[i]); printf(" %ld\\n", v); }']
     trials = []
     for k, ms in enumerate(structs):
-        prog.append('struct B%d { %s };' % (k, ' '.join('%s %s%s;' % (m['ty'], m['name'], ' : %d' % m['bf'] if m['bf'] is not None else '') for m in ms)))
+        prog.append('struct %sB%d { %s };' % ('__attribute__((packed)) ' if packed[k] else '', k, ' '.join('%s %s%s;' % (m['ty'], m['name'], ' : %d' % m['bf'] if m['bf'] is not None else '') for m in ms)))
     prog.append('int main(void) {')
     tid = 0
     for k, ms in enumerate(structs):
@@ -373,7 +374,7 @@ int main(void) { long s = work(%d, %d, 2); printf("%%ld %%d\\n", s, bad); return
                traces_validated_against_impl=nontriv)
     return run.finish(cov,
         ['gcc 12 -O0 gives the reference dumps for aggregates (same psABI layout: C08); the bit-field expectation is computed from the layout model and plain bit arithmetic',
-         'packed aggregates are excluded here (C08 known findings)'],
+         'packed structs appear only in the bit-field part (chibicc own layout, tied to the layout model); packed aggregates elsewhere are C08 matter'],
         ['Coq 8.16.1 kernel, no axioms', 'hand-written Model/Bitfield.v (register-level shl/shr/sar/and/or sequences on Z) tied by (a) and (c); Model/Layout.v (C08) supplies unit offsets',
          'gen_addr for nested members, aggregate copy loops, compound literals, VLA/alloca lowering are NOT modelled: (b) and (d) are differential/self-checking tests only'])
 
